@@ -313,8 +313,9 @@ func implAdd(q *reqT, cfg config.Proxy, strip string) (string, http.Header) {
 
 // ---------- end to end ----------
 type recordingTransport struct {
-	mu  sync.Mutex
-	got []http.Header
+	mu   sync.Mutex
+	got  []http.Header
+	host []string // req.Host as handed to the transport
 }
 
 func (t *recordingTransport) RoundTrip(req *http.Request) (*http.Response, error) {
@@ -329,15 +330,21 @@ func (t *recordingTransport) RoundTrip(req *http.Request) (*http.Response, error
 		}
 	}
 	t.got = append(t.got, cp)
+	t.host = append(t.host, req.Host)
 	t.mu.Unlock()
 	return &http.Response{StatusCode: 200, Status: "200 OK", Proto: "HTTP/1.1", ProtoMajor: 1, ProtoMinor: 1,
 		Header: http.Header{"Content-Type": {"text/plain"}}, Body: http.NoBody, Request: req}, nil
 }
 
 // loopback upstream for the websocket handler (it dials with net.Dial itself)
+type wsObs struct {
+	hdr  http.Header
+	host string
+}
+
 type wsUpstream struct {
 	ln  net.Listener
-	got chan http.Header
+	got chan *wsObs
 }
 
 func newWSUpstream() *wsUpstream {
@@ -345,7 +352,7 @@ func newWSUpstream() *wsUpstream {
 	if err != nil {
 		panic(err)
 	}
-	u := &wsUpstream{ln: ln, got: make(chan http.Header, 16)}
+	u := &wsUpstream{ln: ln, got: make(chan *wsObs, 16)}
 	go func() {
 		for {
 			c, err := ln.Accept()
@@ -361,7 +368,7 @@ func newWSUpstream() *wsUpstream {
 					c.Write([]byte("HTTP/1.1 400 Bad Request\r\n\r\n"))
 					return
 				}
-				u.got <- req.Header
+				u.got <- &wsObs{hdr: req.Header, host: req.Host}
 				c.Write([]byte("HTTP/1.1 101 Switching Protocols\r\nUpgrade: websocket\r\nConnection: Upgrade\r\n\r\n"))
 			}(c)
 		}
@@ -411,7 +418,7 @@ const theUUID = "11111111-2222-3333-4444-555555555555"
 
 // implServe runs the real HTTPProxy.ServeHTTP.  up = header map at the upstream,
 // nil when the upstream was not contacted.
-func implServe(q *reqT, cfg config.Proxy, t *targetT, ws *wsUpstream) (coq string, up http.Header, sts []string, code int) {
+func implServe(q *reqT, cfg config.Proxy, t *targetT, ws *wsUpstream) (coq string, up http.Header, sts []string, code int, uhost string) {
 	tr := &recordingTransport{}
 	tgt := &route.Target{URL: &url.URL{Scheme: "http", Host: t.URLHost}, Host: t.HostOpt, StripPath: t.Strip}
 	p := &proxy.HTTPProxy{Config: cfg, Transport: tr, UUID: func() string { return theUUID },
@@ -423,25 +430,31 @@ func implServe(q *reqT, cfg config.Proxy, t *targetT, ws *wsUpstream) (coq strin
 		<-ws.got
 	}
 	if pn, _ := vh.Recover(func() { p.ServeHTTP(w, r) }); pn {
-		return vh.Panic, nil, nil, 0
+		return vh.Panic, nil, nil, 0, ""
 	}
 	sts = w.Header()["Strict-Transport-Security"]
 	code = w.Code
 	tr.mu.Lock()
 	if len(tr.got) > 0 {
-		up = tr.got[0]
+		up, uhost = tr.got[0], tr.host[0]
 	}
 	tr.mu.Unlock()
 	if up == nil {
 		select {
-		case up = <-ws.got:
+		case o := <-ws.got:
+			if o != nil {
+				up, uhost = o.hdr, o.host
+				if uhost == t.URLHost { // Request.Write fell back to r.URL.Host: run-dependent loopback port
+					uhost = t.CoqURLHost
+				}
+			}
 		default:
 		}
 	}
 	if up == nil {
-		return vh.Err(0), nil, sts, code
+		return vh.Err(0), nil, sts, code, ""
 	}
-	return vh.Ok(vh.Pair(coqHdr(up), coqStrList(sts))), up, sts, code
+	return vh.Ok(vh.Pair(coqHdr(up), coqStrList(sts))), up, sts, code, uhost
 }
 
 func project(h http.Header, cfg *config.Proxy) map[string][]string {
@@ -631,13 +644,13 @@ func main() {
 
 	// 4. end to end through HTTPProxy.ServeHTTP
 	serveCase := func(class string, cfg config.Proxy, q *reqT, t *targetT) {
-		impl, up, sts, code := implServe(q, cfg, t, ws)
+		impl, up, sts, code, uhost := implServe(q, cfg, t, ws)
 		if impl == vh.Panic {
 			run.Violation(run.NextID(), "ServeHTTP panicked", project(q.Hdr, &cfg))
 		}
-		run.Add(class, vh.App("CServe", coqCfg(&cfg), coqTarget(t), s(theUUID), coqReq(q), impl),
+		run.Add(class, vh.App("CServe", coqCfg(&cfg), coqTarget(t), s(theUUID), coqReq(q), impl, s(uhost)),
 			map[string]interface{}{"fn": "HTTPProxy.ServeHTTP", "cfg": cfgSample(&cfg), "remote": q.RemoteAddr, "host": q.Host, "tls": q.TLS, "host_opt": t.HostOpt, "strip": t.Strip,
-				"client": project(q.Hdr, &cfg), "upstream": project(up, &cfg), "sts": sts, "status": code})
+				"client": project(q.Hdr, &cfg), "upstream": project(up, &cfg), "upstream_host": uhost, "sts": sts, "status": code})
 	}
 	genTarget := func(mode int) *targetT {
 		t := &targetT{URLHost: "upstream.internal:9000", CoqURLHost: "upstream.internal:9000", Strip: pick(r, []string{"", "", "", "/foo"})}
